@@ -1,5 +1,5 @@
 // run harness: evaluate a program on a fresh engine and report tree, stdout, result.
-//   input : <opt|raw> <hex program> [repeat=<k>] [nohints] [shape] [fault=<n>:<runtime_error|out_of_range|boxed|eval_error|foreign>]
+//   input : <opt|raw> <hex program> [repeat=<k>] [nohints] [shape] [tree2] [fault=<n>:<runtime_error|out_of_range|boxed|eval_error|foreign>]
 //   output: TREE <dump> || OUT <hex stdout> || RES <value>     or … || ERR(<class>) <hex reason> [<call stack>]
 #include "astdump.hpp"
 #include <algorithm>
@@ -70,11 +70,12 @@ int main() {
     const bool opt = f[0] == "opt";
     const std::string prog = vf::unhex(f[1]);
     int repeat = 1;
-    bool nohints = false, shape = false;
+    bool nohints = false, shape = false, tree2 = false;
     for (size_t i = 2; i < f.size(); ++i) {
       if (f[i].rfind("repeat=", 0) == 0) repeat = std::stoi(f[i].substr(7));
       if (f[i] == "nohints") nohints = true;
       if (f[i] == "shape") shape = true;
+      if (f[i] == "tree2") tree2 = true;
       if (f[i].rfind("fault=", 0) == 0) {
         const auto spec = f[i].substr(6);
         const auto colon = spec.find(':');
@@ -150,6 +151,7 @@ int main() {
       for (const auto &kv : chai->get_locals()) locals += kv.first + ",";
       tail += " PROBE " + probe + " LOCALS " + locals + " CBCOUNT " + std::to_string(g_cb_count);
     }
+    if (tree2) tail += " || TREE2 " + vf::dump_tree(*tree);   // the tree after it has been evaluated
     return res + " || OUT " + vf::hex(out) + " || " + outcome + tail;
   };
   return vf::run_cases(fn, true, 20);
